@@ -135,7 +135,7 @@ func genScript(r *rand.Rand, n int) (*c05Script, refmodel.Table) {
 }
 
 func c05Model(c *ctx) {
-	n := c.scale(c.pick(30000, 1500000))
+	n := c.scale(c.pick(30000, 600000))
 	c.R.Rule = "random scripts of 1-40 add/del/weight commands interpreted by the reference model and by route.NewTable; compared on exported fields; round trip NewTable(String()) when no two targets of a route differ only in weight. non-trivial = script uses >=2 command kinds and a mixed-case host; distinct by script text"
 	if c.Replay != "" {
 		var in struct{ Lines []string }
